@@ -115,6 +115,17 @@ def _split_commas(s):
     return [x.strip() for x in out if x.strip()]
 
 
+def blank_strings(t):
+    """replace the content of string literals by spaces (same length), so that declarations quoted inside strings
+    (e.g. A2ML text constants containing 'enum X {') are not mistaken for Rust items"""
+    def blank(m):
+        return m.group(0)[0] + ' ' * (len(m.group(0)) - 2) + m.group(0)[-1] if len(m.group(0)) >= 2 else m.group(0)
+    t = re.sub(r"'(?:\\.|\")'", lambda m: "' '" if len(m.group(0)) == 3 else "'  '", t)
+    t = re.sub(r'r(#+)"(?:.|\n)*?"\1', lambda m: ' ' * len(m.group(0)), t)
+    t = re.sub(r'"(?:\\.|[^"\\])*"', blank, t)
+    return t
+
+
 class SrcInfo:
     def __init__(self, repo_root):
         self.root = repo_root
@@ -137,6 +148,7 @@ class SrcInfo:
                     self._scan_enums(st)
 
     def _scan_enums(self, st):
+        st = blank_strings(st)
         for m in re.finditer(r'\benum\s+(\w+)\s*(<[^{]*>)?\s*(where[^{]*)?\{', st):
             name = m.group(1)
             i = m.end() - 1
@@ -150,7 +162,7 @@ class SrcInfo:
                 if not mm:
                     continue
                 vname = mm.group(1)
-                md = re.search(r'=\s*(-?\s*(?:0x[0-9a-fA-F_]+|\d[\d_]*))\s*$', v)
+                md = re.search(r'=\s*(-?\s*(?:0x[0-9a-fA-F_]+?|\d[\d_]*?))_?(?:[iu](?:8|16|32|64|128|size))?\s*$', v)
                 if md and '{' not in v and '(' not in v:
                     nxt = int(md.group(1).replace('_', '').replace(' ', ''), 0)
                 variants.append((vname, nxt))
